@@ -401,6 +401,7 @@ fn cmd_replay(args: &[String]) -> i32 {
         "kill9" => props::kill9::replay(rp),
         "c07big" => props::bigread::replay(rp),
         "c15w" => props::c16walk::replay15(rp),
+        "c02w" => props::c16walk::replay02(rp),
         "maxbatch" => props::maxbatch::replay(rp),
         "c09" => props::image::replay(rp, true),
         "c10" => props::image::replay(rp, false),
